@@ -145,7 +145,7 @@ def _p(pid, title, rules, decided, undecided, anchors=(), floor=1, extra_assumpt
 
 
 _p('C01', 'Attack-graph edges are exactly the MAL meaning of the step expressions',
-   ['R1', 'R2', 'R12', 'R8', 'R14', 'R19', 'R22', 'R18', 'R20', 'R6', 'R17', 'R25'],
+   ['R1', 'R2', 'R12', 'R8', 'R14', 'R19', 'R22', 'R18', 'R20', 'R6', 'R17', 'R10', 'R25'],
    decided=['R1: the evaluator never removes from a list it iterates (set operators, sub-type '
             'filter, recursion through callee summaries)',
             'R2: every child link created by generation is mirrored by the converse parent link on '
@@ -168,7 +168,7 @@ _p('C01', 'Attack-graph edges are exactly the MAL meaning of the step expression
             ('R14', '_process_step_expression'), ('R19', '_process_step_expression')], floor=30)
 
 _p('C02', 'One node per asset x step, with attributes faithful to model and language',
-   ['R3', 'R4', 'R12', 'R8', 'R17', 'R20', 'R19', 'R14', 'R6', 'R22', 'R25'],
+   ['R3', 'R4', 'R12', 'R8', 'R17', 'R20', 'R19', 'R14', 'R6', 'R10', 'R22', 'R25'],
    decided=['R3: every node entering the node list is registered in both lookup indexes and '
             'advances the id counter (and symmetrically on removal)',
             'R4: add_node honours an explicit id by an is-None test, its duplicate test checks the '
@@ -180,7 +180,7 @@ _p('C02', 'One node per asset x step, with attributes faithful to model and lang
    anchors=[('R3', 'AttackGraph.add_node'), ('R4', 'AttackGraph.add_node'), ('R4', 'Model.add_asset')])
 
 _p('C03', 'Step inheritance resolves override/extend correctly and the lookup is pure',
-   ['R6', 'R3', 'R22', 'R17', 'R20', 'R25'],
+   ['R6', 'R3', 'R22', 'R17', 'R20', 'R10', 'R25'],
    decided=['R6: no in-place mutation anywhere in the package has a receiver that may be owned by the '
             'loaded specification (whole-package points-to; deepcopy results tracked per key), so '
             'lookups, language-graph and attack-graph generation leave the specification unmodified '
@@ -196,7 +196,7 @@ _p('C03', 'Step inheritance resolves override/extend correctly and the lookup is
             ('R3', 'LanguageGraph.regenerate_graph')], floor=5)
 
 _p('C04', 'The MAL compiler\'s output is the language the source text denotes',
-   ['R13', 'R9', 'R22', 'R25'],
+   ['R13', 'R9', 'R10', 'R22', 'R25'],
    decided=['R13a: every grammar rule has a visitor method (or is a documented inline rule)',
             'R13b: children the grammar can repeat without bound are consumed in full',
             'R13c: operator chains read the operator between each pair of operands',
@@ -209,7 +209,7 @@ _p('C04', 'The MAL compiler\'s output is the language the source text denotes',
             ('R13', 'malVisitor.visitAssociation')], floor=40)
 
 _p('C05', 'The instance model stays coherent under any history of edits',
-   ['R1', 'R2', 'R3', 'R4', 'R5', 'R18', 'R22', 'R25'],
+   ['R1', 'R2', 'R3', 'R4', 'R5', 'R18', 'R10', 'R22', 'R25'],
    decided=['R1: no Model mutator removes from a list it walks',
             'R18: neighbours through a field: both orientations tested explicitly (self-links included)',
             "R5': remove_asset calls the raising remove_asset_from_association once per DISTINCT association",
@@ -229,7 +229,7 @@ _p('C05', 'The instance model stays coherent under any history of edits',
             ('R5', 'Model.remove_asset_from_association')])
 
 _p('C06', 'A model can only hold what the language allows',
-   ['R17', 'R8', 'R18', 'R20', 'R22', 'R25'],
+   ['R17', 'R8', 'R18', 'R20', 'R10', 'R22', 'R25'],
    decided=['R17 T11a: per asset the schema entry has id/type, allOf to every direct super asset, and for every '
             'defense step a number property with minimum 0, maximum 1 and default 1.0 iff its TTC is Enabled else 0.0',
             'R17 T11b: per association an array field per end typed by $ref to the declared asset of that end, '
@@ -246,7 +246,7 @@ _p('C06', 'A model can only hold what the language allows',
             ('R17', 'Model.add_association')], floor=5)
 
 _p('C07', 'Saving and loading a model preserves it (JSON and YAML)',
-   ['R8', 'R4', 'R15', 'R22', 'R25'],
+   ['R8', 'R4', 'R15', 'R10', 'R22', 'R25'],
    decided=['R8 i-ii: every key Model._to_dict (with asset/association/attacker_to_dict) writes is read by '
             '_from_dict and every key read unguarded is written unconditionally',
             'R8 iii: conversions invert per declared field type; asset / attacker ids that travelled as mapping '
@@ -260,7 +260,7 @@ _p('C07', 'Saving and loading a model preserves it (JSON and YAML)',
             ('R4', 'Model.add_asset'), ('R4', 'Model.add_attacker')], floor=30)
 
 _p('C08', 'Viability/necessity labels are the greatest fixed point, in any node order',
-   ['R17', 'R12', 'R1', 'R22', 'R25'],
+   ['R17', 'R12', 'R1', 'R10', 'R22', 'R25'],
    decided=['R17 T1/T2: per-type viability and necessity equations (exist / notExist / defense from status, or = '
             'exists / and = forall over parents and dually) equal the reference tables',
             'R17 T3/T4: propagation recomputes or-children by an exists-fold, forces and-children false (viability) '
@@ -276,7 +276,7 @@ _p('C08', 'Viability/necessity labels are the greatest fixed point, in any node 
             ('R17', 'calculate_viability_and_necessity')], floor=5)
 
 _p('C09', 'Attack-graph structure and lookup indexes stay consistent in any history',
-   ['R1', 'R2', 'R3', 'R4', 'R7', 'R20', 'R22', 'R25'],
+   ['R1', 'R2', 'R3', 'R4', 'R7', 'R20', 'R17', 'R10', 'R22', 'R25'],
    decided=['R1: no loop of the attack-graph layer removes from the list it walks',
             'R4: node/attacker ids: explicit id honoured, duplicate test on the stored id, counters monotone',
             'R7: the graph deep copy carries indexes and counters and re-links children, parents and '
@@ -297,7 +297,7 @@ _p('C09', 'Attack-graph structure and lookup indexes stay consistent in any hist
             ('R4', 'AttackGraph.add_attacker'), ('R7', 'AttackGraph.__deepcopy__')])
 
 _p('C10', 'Saving and loading an attack graph preserves it',
-   ['R8', 'R4', 'R2', 'R22', 'R25'],
+   ['R8', 'R4', 'R2', 'R10', 'R22', 'R25'],
    decided=['R8 i-ii: all node / attacker keys written by to_dict are read by _from_dict (compromised_by is a '
             'documented redundancy), unguarded reads are always written',
             'R8 iii: str(float)<->float, str(bool)<->== \'True\', list<->list, ids used as mapping keys are '
@@ -315,7 +315,7 @@ _p('C10', 'Saving and loading an attack graph preserves it',
             ('R4', 'AttackGraph.add_node')], floor=40)
 
 _p('C11', 'Attackers and nodes always agree on what is compromised',
-   ['R1', 'R2', 'R7', 'R20', 'R8', 'R17', 'R15', 'R22', 'R25'],
+   ['R1', 'R2', 'R7', 'R20', 'R8', 'R17', 'R15', 'R10', 'R22', 'R25'],
    decided=['R1: remove_attacker does not shrink the reached list while walking it',
             'R2: compromise/undo_compromise update node.compromised_by and '
             'attacker.reached_attack_steps together on the same two objects; remove_attacker '
@@ -359,7 +359,7 @@ _p('C13', 'Pruning removes exactly the non-viable or unnecessary attack steps',
    also=[('R2', 'AttackGraph.remove_node'), ('R3', 'AttackGraph.remove_node')], includes=['C09'])
 
 _p('C14', 'A deep copy of an attack graph is equal and fully independent',
-   ['R7', 'R22', 'R25'],
+   ['R7', 'R10', 'R22', 'R25'],
    decided=['R7a: every field of node / attacker / graph receives its value in the copy, scalars and '
             'shared fields (asset, model, lang_graph) from the same field of the original',
             'R7b: every mutable container field gets an independent value (empty literal, deepcopy with '
@@ -388,7 +388,7 @@ _p('C16', 'Graph generation is deterministic and does not disturb its inputs',
    floor=5)
 
 _p('C17', 'Malformed MAL source is rejected, never half-compiled',
-   ['R9', 'R22', 'R25'],
+   ['R9', 'R10', 'R22', 'R25'],
    decided=['R9a: the parse tree reaches the visitor only under one of the accepted error idioms (raising '
             'error listener installed before the start rule / bail strategy / tested error count); the parser '
             'is constructed nowhere else; includes go through MalCompiler.compile',
@@ -397,7 +397,7 @@ _p('C17', 'Malformed MAL source is rejected, never half-compiled',
    anchors=[('R9', 'MalCompiler.compile')], floor=2)
 
 _p('C15', 'Language graph mirrors the language and over-approximates every attack graph',
-   ['R2', 'R3', 'R9', 'R12', 'R18', 'R22', 'R20', 'R14', 'R17', 'R25'],
+   ['R2', 'R3', 'R9', 'R12', 'R18', 'R22', 'R20', 'R14', 'R17', 'R10', 'R25'],
    decided=['R2: super_assets/sub_assets and step children/parents are created pairwise (P3, P4)',
             'R9b: lookups of super asset, association ends, sub-type, target asset and target step are '
             'each followed by a test whose failing branch raises',
@@ -420,7 +420,7 @@ _p('C15', 'Language graph mirrors the language and over-approximates every attac
 
 
 _p('C18', 'Legacy model loaders agree with the native loader',
-   ['R15', 'R4', 'R8', 'R22', 'R20', 'R25'],
+   ['R15', 'R4', 'R8', 'R22', 'R20', 'R10', 'R25'],
    decided=['R15 EVERY: in the 0.0.39 loader and the securiCAD loader every iteration over assets, defenses, '
             'association fields, associations, attackers and entry points reaches a model sink (add_asset / '
             'setattr / add_association / add_attacker / entry point) or leaves by return/raise - no element is '
@@ -433,7 +433,7 @@ _p('C18', 'Legacy model loaders agree with the native loader',
             ('R8', 'load_model_from_version_0_0_39._process_model')], floor=8)
 
 _p('C19', 'Neo4j export is isomorphic to what is exported, and import inverts it',
-   ['R16', 'R15', 'R22', 'R25'],
+   ['R16', 'R15', 'R10', 'R22', 'R25'],
    decided=['R16a: one database node per asset / attack step, collected under a guarded-unique key',
             'R16b: relationships are accumulated without loss; each linked pair yields two relationships with '
             'swapped end points and the two field labels; one relationship per child edge',
